@@ -4,6 +4,7 @@ import asyncio
 import collections
 import os
 import pathlib
+import re
 import subprocess
 import sys
 import tempfile
@@ -89,28 +90,48 @@ def client():
     return _client
 
 
-def independent_name(raw, fmt):
-    """Name column of a listing line by plain column splitting (independent of aioftp's parsers).
-    Returns None when the line has no name column at all (such a line carries no entry: not judged)."""
-    s = raw.decode("utf-8", "replace").rstrip()
+def _lexical_dot(name):
+    """'.' / '..' after dropping empty and '.' segments (plain lexical rule: './.', './/', './..' name the dot entries too)."""
+    segs = [x for x in name.split("/") if x not in ("", ".")]
+    return (segs == [] and not name.startswith("/")) or segs == [".."]
+
+
+def independent_names(raw, fmt):
+    """Candidate name columns of a listing line by plain column splitting (independent of aioftp's parsers), under both
+    column conventions (columns separated by spaces only / by any whitespace).  Empty set when the line has no name
+    column at all (such a line carries no entry: not judged)."""
+    s = raw.decode("utf-8", "replace")
+    out = set()
     if fmt == "mlsx":
-        facts, sep, name = s.partition(" ")
-        return name if sep and name.strip() else None
-    f = s.split(None, 8)
-    if len(f) == 9 and len(f[0]) >= 10 and f[0][0] in "-dlbcps":
-        name = f[8]
-        if f[0][0] == "l" and " -> " in name:
-            name = name.rsplit(" -> ", 1)[0]
-        return name.strip() or None
-    w = s.split(None, 4)
-    if len(w) == 5 and w[2].upper() in ("AM", "PM"):
-        return w[4].strip() or None
-    return None
+        facts, sep, name = s.rstrip("\r\n").partition(" ")
+        if sep and name.strip():
+            out.add(name)
+            out.add(name.strip())
+        return out
+    for splitter in (lambda t, n: t.split(None, n), lambda t, n: re.split(" +", t.strip(" "), n)):
+        for t in (s.rstrip(), s.rstrip("\r\n")):
+            f = splitter(t, 8)
+            if len(f) == 9 and len(f[0]) >= 10 and f[0][0] in "-dlbcps":
+                name = f[8]
+                if f[0][0] == "l" and " -> " in name:
+                    name = name.rsplit(" -> ", 1)[0]
+                if name.strip():
+                    out.add(name.strip())
+            w = splitter(t, 4)
+            if len(w) == 5 and w[2].upper() in ("AM", "PM") and w[4].strip():
+                out.add(w[4].strip())
+    return out
+
+
+def independent_name(raw, fmt):
+    n = sorted(independent_names(raw, fmt))
+    return n[0] if n else None
 
 
 def names_dot_entry(raw, fmt="list"):
-    n = independent_name(raw, fmt)
-    return n is None or n in (".", "..")
+    """True unless every independent reading of the line yields a name that is lexically not a dot entry."""
+    ns = independent_names(raw, fmt)
+    return not ns or any(_lexical_dot(n) for n in ns)
 
 
 def parser_contract(data):
